@@ -11,6 +11,8 @@
 /// the encoding *function* of a type, on views (C14: the real encoder equals it)
 pub trait Encoded: View {
     spec fn enc_view(v: Self::V) -> Seq<u8>;
+    /// what the encoder accepts (length guards); known of a value that was encoded
+    spec fn enc_valid(v: Self::V) -> bool;
 }
 /// the decoding function of a type on a whole buffer, on views
 pub trait Decoded: View + Sized {
@@ -21,7 +23,7 @@ pub trait Decoded: View + Sized {
 /// buffer; an io error (16 MiB guards) becomes sos_core::Error
 #[verifier::external_body]
 pub fn encode<T: Encoded>(encodable: &T) -> (r: CResult<Vec<u8>>)
-    ensures r is Ok ==> r->Ok_0@ == T::enc_view(encodable@),
+    ensures r is Ok ==> r->Ok_0@ == T::enc_view(encodable@) && T::enc_valid(encodable@),
 { unimplemented!() }
 /// `sos_core::decode` (mod.rs:42): `T::default()` then `T::decode` on a reader
 /// over the buffer
